@@ -2,7 +2,7 @@ use std::fmt::Write as _;
 use std::io::Write as _;
 use std::panic::{catch_unwind, AssertUnwindSafe};
 
-pub fn quiet_panics() { std::panic::set_hook(Box::new(|_| {})); }
+pub fn quiet_panics() { if std::env::var("VH_PANIC").is_err() { std::panic::set_hook(Box::new(|_| {})); } }
 pub fn catch<T>(f: impl FnOnce() -> T) -> Option<T> { catch_unwind(AssertUnwindSafe(f)).ok() }
 
 /// Minimal JSON value + printer (no serde dependency needed).
